@@ -123,3 +123,8 @@ impl LldpService {
         }
     }
 }
+
+#[cfg(feature = "isomer_erbium_verif")]
+mod isomer_erbium_verif {
+    include!(concat!(env!("ISOMER_ERBIUM_VERIF_DIR"), "/lldp_mod.rs"));
+}
